@@ -195,6 +195,68 @@ class PySpec:
         self.store_name(n.target.id, v)
         return v
 
+    # comprehensions (6.2.4; CPython 3.12 inlines them, the loop variables stay private to the comprehension) -----
+    def _comp(self, gens, emit):
+        it = self.it
+        names = []
+        for g in gens:
+            for n in ast.walk(g.target):
+                if isinstance(n, ast.Name) and n.id not in names:
+                    names.append(n.id)
+        saved = {}
+        for nm in sorted(names):
+            if it.branch_truth(it.wrapb(it.contains(self.vars, nm)), "spec.scope.has"):
+                saved[nm] = it.getitem(self.vars, nm)
+        try:
+            self._comp_loop(gens, 0, emit)
+        finally:
+            # the enclosing scope's bindings of the loop variables are what they were (also on an exception)
+            for nm in sorted(names):
+                if nm in saved:
+                    it.setitem(self.vars, nm, saved[nm])
+                elif it.branch_truth(it.wrapb(it.contains(self.vars, nm)), "spec.scope.has2"):
+                    it.delitem(self.vars, nm)
+
+    def _comp_loop(self, gens, i, emit):
+        g = gens[i]
+        for item in self.it.iterate(self.ev(g.iter)):
+            self.assign(g.target, item)
+            ok = True
+            for c in g.ifs:
+                if not self.it.branch_truth(self.ev(c), "spec.compif"):
+                    ok = False
+                    break
+            if ok:
+                if i == len(gens) - 1:
+                    emit()
+                else:
+                    self._comp_loop(gens, i + 1, emit)
+
+    def ev_ListComp(self, n):
+        out = []
+        self._comp(n.generators, lambda: out.append(self.ev(n.elt)))
+        return out
+
+    def ev_SetComp(self, n):
+        from pyvc.interp import SymPySet
+        out = SymPySet()
+
+        def emit():
+            v = self.ev(n.elt)
+            self.it.pyset_add(out, v)
+        self._comp(n.generators, emit)
+        return out
+
+    def ev_DictComp(self, n):
+        out = {}
+
+        def emit():
+            k = self.ev(n.key)
+            v = self.ev(n.value)
+            self.it.setitem(out, k, v)
+        self._comp(n.generators, emit)
+        return out
+
     # names ---------------------------------------------------------------------------------------
     def store_name(self, name, v):
         self.it.setitem(self.vars, name, v)
